@@ -617,7 +617,7 @@ def e2_todelta_bce(ctx):
 
 # --- added after round-2 seeded changes: the 29th of February exists exactly in leap years, also beyond year 9999 and BCE ------------
 
-@ob(budget=120, bound='year in [10000, 2.7e6] or [-2.7e6, -1] (XSD 1.1 numbering): DateTime/Date(year, 2, 29) is accepted iff the proleptic Gregorian year is leap; day 30 never',
+@ob(budget=120, bound='year in [10000, 2.7e6] or [-2.7e6, -1] (internal numbering, -1 = 1 BCE; XSD 1.1 and XSD 1.0 classes): DateTime/Date(year, 2, 29) is accepted iff the proleptic Gregorian year is leap; day 30 never',
     funcs=[D + ':AbstractDateTime.__init__'])
 def leap_day_far_years(year: int) -> bool:
     """
@@ -625,7 +625,7 @@ def leap_day_far_years(year: int) -> bool:
     post: _
     """
     leap = _is_leap(_astro(year))
-    for cls in (DateTime, Date):
+    for cls in (DateTime, Date, DateTime10, Date10):      # the internal year numbering (no year 0) is the same for both XSD versions
         try:
             v = cls(year, 2, 29)
             ok = v.day == 29 and v.month == 2 and v.year == year
@@ -848,7 +848,7 @@ def duration_plus_value_commutes(pi: int, qi: int, yi: int) -> bool:
 _H24_YEARS = ('0001', '1999', '2000', '9998', '9999', '10000', '10001', '12000', '-0002', '-0005', '-12000')
 _H24_NEXT = {'0001': '0002', '1999': '2000', '2000': '2001', '9998': '9999', '9999': '10000', '10000': '10001', '10001': '10002', '12000': '12001',
              '-0002': '-0001', '-0005': '-0004', '-12000': '-11999'}
-_H24_ENDS = (('01-31', '02-01'), ('04-30', '05-01'), ('11-30', '12-01'), ('12-31', None), ('12-30', '12-31'), ('02-28', None))    # (BCE Februaries: see below)
+_H24_ENDS = (('01-31', '02-01'), ('04-30', '05-01'), ('11-30', '12-01'), ('12-31', None), ('12-30', '12-31'), ('02-28', None))
 
 
 def _h24_want(ys, md, nxt):
@@ -856,7 +856,8 @@ def _h24_want(ys, md, nxt):
         return ys + '-' + nxt
     if md == '12-31':
         return _H24_NEXT[ys] + '-01-01'
-    return ys + ('-02-29' if _is_leap(int(ys)) else '-03-01')
+    y = int(ys) if int(ys) > 0 else int(ys) + 1         # XSD 1.0 lexical -0005 is the astronomical year -4
+    return ys + ('-02-29' if _is_leap(y) else '-03-01')
 
 
 @ob(budget=200, bound='xs:dateTime("Y-MM-DDT24:00:00") for Y from 11 lexical years {0001, 1999, 2000, 9998, 9999, 10000, 10001, 12000, -0002, -0005, -12000} '
@@ -870,8 +871,6 @@ def hour24_at_month_and_year_ends(yi: int, ei: int) -> bool:
     """
     ys = _H24_YEARS[[k for k in range(11) if k == yi][0]]
     md, nxt = _H24_ENDS[[k for k in range(6) if k == ei][0]]
-    if md == '02-28' and ys.startswith('-'):
-        md, nxt = '03-31', '04-01'      # which BCE years are leap under XSD 1.0 numbering is not asserted here (leap_day_far_years covers XSD 1.1)
     r = L(T_CMP['h24'].evaluate(XPathContext(item=1, variables={'s': ys + '-' + md + 'T24:00:00'})))
     return r == [_h24_want(ys, md, nxt) + 'T00:00:00']
 
@@ -933,3 +932,41 @@ def adjust_date_day_shift(oi: int, zi: int, di: int) -> bool:
     dur = ('-' if zmin < 0 else '') + 'PT%dH%dM' % (abs(zmin) // 60, abs(zmin) % 60)
     r = L(T_ADJD.evaluate(XPathContext(item=1, variables={'d': base + _ADJ_TZ[o], 'z': dur})))
     return r == [shifted[shift + 2] + _ADJ_TZ[z]]
+
+
+# --- added after the round-4 baseline reports: XSD 1.0 values before the common era go to the timeline and back ------------------------------
+
+_BCE_YEARS = (-1, -2, -4, -5, -100, -101, -400, -401, -2000, -2001, -12001)
+
+
+@ob(budget=300, bound='Date10 / DateTime10 (XSD 1.0 classes) with a year from {-1, -2, -4, -5, -100, -101, -400, -401, -2000, -2001, -12001} (internal numbering: -1 = '
+                      '1 BCE), month from {1, 2, 3, 12}, day from {1, 28, 29, 30, 31} (indices chosen by the solver, values concrete on each path): a day beyond the '
+                      'month length of the proleptic Gregorian year is rejected; otherwise fromdelta(todelta(v)) has the same components and one day later is '
+                      'the next calendar day',
+    funcs=[D + ':AbstractDateTime.todelta', D + ':AbstractDateTime.fromdelta', D + ':AbstractDateTime.__init__'])
+def bce_timeline_roundtrip_xsd10(yi: int, mi: int, di: int) -> bool:
+    """
+    pre: 0 <= yi <= 10 and 0 <= mi <= 3 and 0 <= di <= 4
+    post: _
+    """
+    year = _BCE_YEARS[[k for k in range(11) if k == yi][0]]
+    month = (1, 2, 3, 12)[[k for k in range(4) if k == mi][0]]
+    day = (1, 28, 29, 30, 31)[[k for k in range(5) if k == di][0]]
+    if day > _mlen(_astro(year), month):
+        try:
+            Date10(year, month, day)
+        except ValueError:
+            return True
+        return False
+    for cls in (Date10, DateTime10):
+        v = cls(year, month, day)
+        td = v.todelta()
+        td = datetime.timedelta(days=int(td.days), seconds=int(td.seconds))     # (CrossHair's timedelta model keeps float fields: same value, int fields)
+        r = cls.fromdelta(td)
+        if (r.year, r.month, r.day) != (year, month, day):
+            return False
+        w = cls.fromdelta(td + datetime.timedelta(days=1))
+        ny, nm, nd = (year, month, day + 1) if day < _mlen(_astro(year), month) else (year, month + 1, 1) if month < 12 else (year + 1 if year < -1 else 1, 1, 1)
+        if (w.year, w.month, w.day) != (ny, nm, nd):
+            return False
+    return True
